@@ -43,10 +43,23 @@ type method struct {
 var st1 = tcell.StyleDefault.Foreground(tcell.ColorRed).Bold(true)
 var st2 = tcell.StyleDefault.Background(tcell.NewRGBColor(10, 20, 30)).Underline(tcell.UnderlineStyleCurly)
 
+var combSink atomic.Int64
+
 var methods = []method{
-	{"SetContent", func(s tcell.Screen, i int) { s.SetContent(i%20, i%6, rune('a'+i%26), nil, st1) }, true},
+	{"SetContent", func(s tcell.Screen, i int) { s.SetContent(i%20, i%6, rune('a'+i%26), []rune{rune(0x0300 + i%3)}, st1) }, true},
 	{"SetCell", func(s tcell.Screen, i int) { s.SetCell(i%20, i%6, st2, '世') }, true},
-	{"GetContent", func(s tcell.Screen, i int) { s.GetContent(i%20, i%6) }, true},
+	{"GetContent", func(s tcell.Screen, i int) {
+		// the application looks at what it got back (after the call returned)
+		_, comb, _, _ := s.GetContent(i%20, i%6)
+		var sum rune
+		for k := 0; k < 4; k++ {
+			for _, r := range comb {
+				sum += r
+			}
+			runtime.Gosched()
+		}
+		combSink.Store(int64(sum))
+	}, true},
 	{"Fill", func(s tcell.Screen, i int) { s.Fill(rune('0'+i%10), st1) }, true},
 	{"Clear", func(s tcell.Screen, i int) { s.Clear() }, true},
 	{"SetStyle", func(s tcell.Screen, i int) { s.SetStyle(st2) }, true},
